@@ -52,7 +52,6 @@ void Normalizer::Declarative(SyntaxTree::Node& root) {
     return;
   }
   const auto newName = ProcessTupleDeclaration(root(0));
-  SubstituteTupleVariables(root(1), newName);
   SubstituteTupleVariables(root(2), newName);
 }
 
@@ -78,12 +77,12 @@ void Normalizer::Imperative(SyntaxTree::Node& root) {
       continue;
     }
     const auto newName = ProcessTupleDeclaration(declRoot(0));
+    // Note: pattern variables are visible in the result expression and in the following blocks only
     for (Index child2 = 0; child2 < root.ChildrenCount(); ++child2) {
-      if (child2 != child) {
-        SubstituteTupleVariables(root(child2), newName);
+      if (child2 == 0 || child2 > child) {
+        SubstituteTupleVariable(root, child2, newName);
       }
     }
-    SubstituteTupleVariables(root, newName);
   }
 }
 
@@ -144,18 +143,22 @@ std::string Normalizer::ProcessTupleDeclaration(SyntaxTree::Node& root) {
 
 void Normalizer::SubstituteTupleVariables(SyntaxTree::Node& target, const std::string& newName) {
   for (Index child = 0; child < target.ChildrenCount(); ++child) {
-    if (target(child).token.id != TokenID::ID_LOCAL) {
-      SubstituteTupleVariables(target(child), newName);
-    } else {
-      const auto& localName = target(child).token.data.ToText();
-      if (tupleSubstitutes.contains(localName)) {
-        const auto& indexes = tupleSubstitutes.at(localName);
-        target(child).token.data = TokenData{ newName };
-        for (const auto prIndex : indexes) {
-          target.ExtendChild(child, TokenID::SMALLPR);
-          target(child).token.pos = target(child)(0).token.pos;
-          target(child).token.data = TokenData{ std::vector<Index>{ prIndex } };
-        }
+    SubstituteTupleVariable(target, child, newName);
+  }
+}
+
+void Normalizer::SubstituteTupleVariable(SyntaxTree::Node& target, const Index child, const std::string& newName) {
+  if (target(child).token.id != TokenID::ID_LOCAL) {
+    SubstituteTupleVariables(target(child), newName);
+  } else {
+    const auto& localName = target(child).token.data.ToText();
+    if (tupleSubstitutes.contains(localName)) {
+      const auto& indexes = tupleSubstitutes.at(localName);
+      target(child).token.data = TokenData{ newName };
+      for (const auto prIndex : indexes) {
+        target.ExtendChild(child, TokenID::SMALLPR);
+        target(child).token.pos = target(child)(0).token.pos;
+        target(child).token.data = TokenData{ std::vector<Index>{ prIndex } };
       }
     }
   }
